@@ -43,13 +43,16 @@ Theorem C12_issue_complete : forall kind a actual i,
 Proof. exact format_error_complete. Qed.
 Print Assumptions C12_issue_complete.
 
-(* the message: _create_error_object always stores a 'message' (in the model the field is total: present
-   by construction), and its text is what the registered message function of the kind returns -- or
-   val_error_unknown for an unregistered kind.  The translator extracts, from the SOURCE of every message
-   function, the number of literal characters that every returned text contains (minimum over its return
-   statements); the kernel checks that it is positive for all registered kinds.  So every issue has a
-   NON-EMPTY message.  (The rendered text itself is not modelled; the implementation-side oracle checks
-   isinstance(message, str) and non-emptiness on every returned issue.) *)
+(* the message.  What is PROVED here is a fact about the translated table kind_msg_min only: for every
+   registered kind (and for val_error_unknown, used for unregistered kinds) every text the message function
+   can return contains at least one literal character -- the translator extracts that lower bound from the
+   SOURCE of each message function (minimum over its return statements) and the kernel checks positivity.
+   It is NOT linked inside Coq to the [i_msg] field of an issue: the model's message is a structural record
+   (quoted tag / fragment / appended suffixes) without the rendered text, and the field is total, i.e.
+   "present" holds by construction of the model.  That the text stored under 'message' by
+   _create_error_object IS what the kind's message function returned, hence non-empty, rests on (a) the
+   translator (trusted, fail closed) and (b) the implementation-side oracle, which checks
+   isinstance(message, str) and non-emptiness on every returned issue (testing). *)
 Theorem C12_message_nonempty : forall kind, 0 < msg_min_of kind.
 Proof. exact message_nonempty. Qed.
 Print Assumptions C12_message_nonempty.
